@@ -270,11 +270,15 @@ def run(ctx):
                         tf = switch_true_false(ap, bb)
                         if o and o[0] == "field" and o[2] == "backup" and tf:
                             # the set call must not be reachable from the false edge
-                            if c.bb not in ap.reachable(tf[1]):
+                            # … and the flag is consulted on every path: `--backup` combined with any other option
+                            # (`--emit files --backup`) still asks for the backup protocol
+                            if c.bb not in ap.reachable(tf[1]) and not any(b in ap.reachable(0, avoid_blocks=[bb]) for b in ap.returns()) \
+                                    and not any(b in ap.reachable(tf[0], avoid_blocks=[c.bb]) for b in ap.returns()):
                                 ok = True
         r.instance("R20-c", "apply_to sets make_backup", "ok" if ok else "violation", "%s:%d" % (ap.file, ap.line))
         r.oblige("R20-c", "--backup ⇒ make_backup(true) in apply_to", ok)
         if not ok:
             r.violation("R20-c", "apply_to: --backup does not set make_backup",
-                        "no ConfigSetter::make_backup(true) guarded by / derived from the `backup` flag",
+                        "no ConfigSetter::make_backup(true) that is executed exactly when the `backup` flag is set, whatever the other "
+                        "options are (the test of the flag must lie on every path through apply_to)",
                         ["%s:%d" % (ap.file, ap.line)])
